@@ -86,17 +86,17 @@ def insertSorted (x : Nat) : List Nat → List Nat
 
 def sortDedup (l : List Nat) : List Nat := l.foldr insertSorted []
 
-/-- `_get_indexes(_get_accepted_executions())` as a set -/
-def acceptedIdx (s : WI) : List Nat :=
-  (s.items.filter fun it => it.accepted && it.completed).map (·.index)
-
 /-- `_get_indexes(_get_unaccepted_executions())` as a set -/
 def unacceptedIdx (s : WI) : List Nat :=
   (s.items.filter fun it => !it.accepted && it.completed).map (·.index)
 
-/-- `sorted(list(set(unaccepted) - set(accepted)))` -/
+/-- `taken`: indexes of the executions that are accepted or RUNNING/IDLE (fix 494951d1) -/
+def takenIdx (s : WI) : List Nat :=
+  (s.items.filter fun it => it.accepted || it.state == .running).map (·.index)
+
+/-- `sorted(list(set(unaccepted) - taken))` -/
 def candidates (s : WI) : List Nat :=
-  sortDedup ((unacceptedIdx s).filter fun i => !(acceptedIdx s).contains i)
+  sortDedup ((unacceptedIdx s).filter fun i => !(takenIdx s).contains i)
 
 /-- `_get_next_start_index`: executions accepted, RUNNING or IDLE -/
 def nextStartIndex (s : WI) : Nat :=
@@ -105,10 +105,12 @@ def nextStartIndex (s : WI) : Nat :=
 /-- `list(range(a, b))` -/
 def rangeFromTo (a b : Nat) : List Nat := List.range' a (b - a)
 
-/-- the list `indices` before it is cut to the capacity -/
+/-- the list `indices` before it is cut to the capacity: the candidates followed by the indexes
+    after the largest candidate that are not taken -/
 def indices (s : WI) : List Nat :=
   match (candidates s).getLast? with
-  | some m => candidates s ++ (if m < s.count - 1 then rangeFromTo (m + 1) s.count else [])
+  | some m => candidates s ++
+      (if m < s.count - 1 then (rangeFromTo (m + 1) s.count).filter fun i => !(takenIdx s).contains i else [])
   | none => rangeFromTo (nextStartIndex s) s.count
 
 /-- `indices[:capacity]` (`[:None]` is the whole list) -/
